@@ -22,6 +22,15 @@ SPECS = [
         inputs=[("n_steps", "Z"), ("n_rollout_steps", "Z")],
     ),
     dict(
+        name="onp_sde_guard", qual=_Q, start=r"^if self\.use_sde and self\.sde_sample_freq\b", end=None, kind="test",
+        inputs=[("use_sde", "bool"), ("sde_sample_freq", "Z"), ("n_steps", "Z")],
+        subst={"self.use_sde": "use_sde", "self.sde_sample_freq": "sde_sample_freq"},
+    ),
+    dict(
+        name="onp_sde_start_guard", qual=_Q, start=r"^if self\.use_sde:$", end=None, kind="test",
+        inputs=[("use_sde", "bool")], subst={"self.use_sde": "use_sde"},
+    ),
+    dict(
         name="onp_unscale", file="stable_baselines3/common/policies.py", qual="BasePolicy.unscale_action", start=r"^return ", end=None,
         kind="expr", ret="Q", inputs=[("low", "Q"), ("high", "Q"), ("scaled_action", "Q")],
     ),
